@@ -621,3 +621,54 @@ package generator
 //@   ensures [C08] constants-for-string-values: result1 == nil && old(enum_consistent(t.Type, t.Enum)) && enum_carrier(result0.Decl.Type) == "string" ==> count_decls(g.output.file.Package.Decls, "*codegen.Constant") >= 1 && (len(t.Enum) == 1 ==> count_decls(g.output.file.Package.Decls, "*codegen.Constant") == 1)
 //@   ensures [C08] no-constants-otherwise: result1 == nil && enum_carrier(result0.Decl.Type) != "string" ==> count_decls(g.output.file.Package.Decls, "*codegen.Constant") == 0
 //@   ensures [C08,C16] only-models-adds-no-code: result1 == nil && g.config.OnlyModels ==> count_decls(g.output.file.Package.Decls, "*codegen.Var") == 0 && count_decls(g.output.file.Package.Decls, "*codegen.Method") == 0 && len(g.output.file.Package.Imports) == 0
+
+// ---- arm selection in generateType (children of declared types) -----------------
+// Assumed call-site contracts for the recursive generators it dispatches to.
+//@ func (*schemaGenerator).generateReferencedType@callsite
+//@   trusted assumed contract: returns (type, nil) or (nil, error)
+//@   shape results = (named:R; nil) | (nil; error)
+//@   assigns nothing
+//@ func (*schemaGenerator).generateStructType@callsite
+//@   trusted assumed contract: returns (type, nil) or (nil, error)
+//@   shape results = (named:S; nil) | (nil; error)
+//@   assigns nothing
+//@ func (*schemaGenerator).generateEnumType@callsite
+//@   trusted at call sites: returns (named enum type, nil) or (nil, error); its own posts are verified in the contract above
+//@   shape results = (named:E; nil) | (nil; error)
+//@   assigns nothing
+//@ func (*schemaGenerator).generateType@callsite
+//@   trusted at recursive call sites: returns (type, nil) or (nil, error)
+//@   shape results = (prim:string; nil) | (named:X; nil) | (nil; error)
+//@   assigns nothing
+
+//@ func (*schemaGenerator).generateType@arms
+//@   props C08 C07 C03 C02 C10
+//@   option inline (*schemaGenerator).determineTypeName PrimitiveTypeFromJSONSchemaType getMinIntType adjustForSignedBounds adjustForUnsignedBounds NormalizeBounds
+//@   option shape-zero t. scope.
+//@   option noframe
+//@   shape g = sgen()
+//@   shape t = new
+//@   shape t.Enum = nil | enumvals(string)
+//@   shape t.Ref = "" | "#/$defs/X"
+//@   shape t.Format = ""
+//@   shape t.Type = strs() | strs(string) | strs(array) | strs(object) | strs(integer,null)
+//@   shape t.Items = nil | new
+//@   ensures [C08] enum-children-become-enum-types: t.Enum != nil && result1 == nil ==> result0 == call_result("(*schemaGenerator).generateEnumType", 0)
+//@   ensures [C10] refs-are-followed: t.Enum == nil && t.Ref != "" && result1 == nil ==> result0 == call_result("(*schemaGenerator).generateReferencedType", 0)
+//@   ensures [C07,C03] array-arm: t.Enum == nil && t.Ref == "" && len(t.Type) == 1 && t.Type[0] == "array" && result1 == nil ==> dyn(result0) == "codegen.ArrayType" && t.Items != nil
+//@   ensures [C07,C18] array-needs-items: t.Enum == nil && t.Ref == "" && len(t.Type) == 1 && t.Type[0] == "array" && t.Items == nil ==> result1 != nil
+//@   ensures [C03,C02] nullable-integer-is-pointer: t.Enum == nil && t.Ref == "" && len(t.Type) == 2 && result1 == nil ==> dyn(result0) == "*codegen.PointerType"
+
+// ---- objects without properties become maps of their additionalProperties type (generateStructType) ----
+//@ func (*schemaGenerator).generateStructType@map-arm
+//@   props C03 C02
+//@   option shape-zero t. scope.
+//@   option noframe
+//@   shape g = sgen()
+//@   shape t = new
+//@   shape t.AdditionalProperties = nil | new
+//@   shape t.AdditionalProperties.Ref = "" | "#/$defs/V"
+//@   shape t.AdditionalProperties.Type = strs() | strs(string)
+//@   ensures [C03,C02] typed-values: result1 == nil && t.AdditionalProperties != nil ==> dyn(result0) == "*codegen.MapType" && result0.ValueType == call_result("(*schemaGenerator).generateType", 0)
+//@   ensures [C03] untyped-values-when-unconstrained: result1 == nil && t.AdditionalProperties == nil ==> dyn(result0) == "*codegen.MapType" && dyn(result0.ValueType) == "codegen.EmptyInterfaceType"
+//@   ensures [C18] value-type-errors-propagate: t.AdditionalProperties != nil && call_failed("(*schemaGenerator).generateType") ==> result1 != nil
